@@ -921,6 +921,20 @@ func run(c *core.Ctx) {
 		}
 	}
 
+	// varying-thickness lines: every line of the menu followed by every other
+	nvl := len(vlMenu())
+	c.Bound("varying_lines", nvl)
+	for a := 0; a < 18; a++ {
+		for b := 0; b < nvl; b++ {
+			mine := c.Mine(idx)
+			idx++
+			if !mine || c.Expired() {
+				continue
+			}
+			k.varyingLine(a, b, L)
+		}
+	}
+
 	// far field: combinators (all ordered pairs, rings of arity 3 and 4) and Translate on the ladder
 	// points of a handful of rays from the origin
 	F := farPoints()
@@ -985,6 +999,8 @@ func replay(c *core.Ctx) {
 		k.op(cs.Op, cs.Args, L)
 	case "translate":
 		k.translate(cs.Args[0], t, L)
+	case "vline":
+		k.varyingLine(cs.Args[0], cs.Args[1], L)
 	default:
 		c.HarnessError("unknown case kind %q", cs.Kind)
 	}
